@@ -18,6 +18,7 @@ type Str struct {
 	b      []*T
 	opaque bool // result of formatting symbolic data: contents must not be inspected
 	otag   string
+	num    *T // opaque decimal rendering of this unsigned 64-bit term (strconv.FormatUint of a symbolic value)
 }
 
 type Struct []Value
